@@ -99,27 +99,37 @@ impl Known {
 }
 
 fn watchdog_thread(stop: &'static AtomicBool, id: &'static str) {
-    std::thread::spawn(move || loop {
+    std::thread::spawn(move || {
+      let mut last = [0i64; 64];
+      let mut ticks = [0u32; 64];
+      loop {
         std::thread::sleep(std::time::Duration::from_millis(500));
         if stop.load(Ordering::Relaxed) {
             return;
         }
-        let now = wall_ms();
         for w in 0..64 {
             let t = WATCH[w].load(Ordering::Relaxed);
-            if t != 0 && now - t > 20_000 {
+            if t != 0 && t == last[w] {
+                ticks[w] += 1;
+            } else {
+                last[w] = t;
+                ticks[w] = 0;
+            }
+            // the same call for 60 of the watchdog's own ticks (30 s of this process running)
+            if t != 0 && ticks[w] >= 60 {
                 let run = WATCH_RUN[w].load(Ordering::Relaxed);
                 let idx = WATCH_IDX[w].load(Ordering::Relaxed);
                 let path = format!("{}/replays/{}-hang-{}.json", verif_root(), id, run);
                 let _ = std::fs::create_dir_all(format!("{}/replays", verif_root()));
                 let _ = std::fs::write(
                     &path,
-                    serde_json::to_string_pretty(&json!({"property": id, "check": id, "run_seed": run, "run_index": idx, "thorough": WATCH_THOROUGH.load(Ordering::Relaxed), "signature": "hang", "note": "a call into the library did not return within 20 s of wall-clock time (the run never ended, so there is no recorded tape to minimise: the replay re-runs this run_seed under the same watchdog)"})).unwrap(),
+                    serde_json::to_string_pretty(&json!({"property": id, "check": id, "run_seed": run, "run_index": idx, "thorough": WATCH_THOROUGH.load(Ordering::Relaxed), "signature": "hang", "note": "a call into the library did not return while the watchdog of this process ticked 60 times, 30 s (the run never ended, so there is no recorded tape to minimise: the replay re-runs this run_seed under the same watchdog)"})).unwrap(),
                 );
                 println!("VIOLATION property={} replay={}", id, path);
                 std::process::exit(1);
             }
         }
+      }
     });
 }
 
